@@ -209,6 +209,15 @@ func (e *Enc) strConstRef(content string) string {
 	return r
 }
 
+func (e *Enc) isConstRef(r string) bool {
+	for _, x := range e.strConst {
+		if x == r {
+			return true
+		}
+	}
+	return false
+}
+
 // constContent: the bytes of a literal constant slice term.
 func (e *Enc) constContent(t string) (string, bool) {
 	if t == nilSlc {
@@ -260,13 +269,30 @@ func constArrayTerm(content string) string {
 	return b.String()
 }
 
-// finish emits the constant-content axioms for every Mem version.
+// constDefs: definitions of the constant arrays (this function's and those used by spec functions).
+func (e *Enc) constDefs() []string {
+	var out []string
+	seen := map[string]bool{}
+	for _, s := range e.strList {
+		r := e.strConst[s]
+		seen[r] = true
+		out = append(out, fmt.Sprintf("(define-fun %s () (Array Int Int) %s)", sym("CS!"+r), constArrayTerm(s)))
+	}
+	for _, s := range e.W.specConstList {
+		r := e.W.specConsts[s]
+		if !seen[r] {
+			out = append(out, fmt.Sprintf("(define-fun %s () (Array Int Int) %s)", sym("CS!"+r), constArrayTerm(s)))
+		}
+	}
+	return out
+}
+
+// constAxioms: every Mem version holds the constant arrays unchanged.
 func (e *Enc) constAxioms() []string {
 	var out []string
 	for _, s := range e.strList {
 		r := e.strConst[s]
 		cname := sym("CS!" + r)
-		out = append(out, fmt.Sprintf("(define-fun %s () (Array Int Int) %s)", cname, constArrayTerm(s)))
 		for _, m := range e.memVers {
 			out = append(out, fmt.Sprintf("(assert (= (select %s %s) %s))", m, r, cname))
 		}
@@ -318,6 +344,10 @@ func (e *Enc) script(o *Obligation, dropQuant bool) string {
 	var b strings.Builder
 	sp := e.W.specPreludeFor(bs, dropQuant)
 	b.WriteString(preludeFor(bs+sp, dropQuant))
+	for _, d := range e.constDefs() {
+		b.WriteString(d)
+		b.WriteByte('\n')
+	}
 	b.WriteString(sp)
 	b.WriteString(bs)
 	return b.String()
